@@ -735,7 +735,10 @@ class Request(interfaces.Request, BaseUnicastRequest):
             return
 
         if first_event.is_last:
-            self.observation.error(error.NotObservable())
+            if not self.observation.cancelled:
+                # (if the application already cancelled the observation, there
+                # is nobody left to tell that it did not come about)
+                self.observation.error(error.NotObservable())
             return
 
         if first_event.message.opt.observe is None:
